@@ -353,7 +353,7 @@ func c04Check(x *runCtx, base *c04Base, enc []byte, what string) {
 			}
 			if hdr256 == "ok" && implV.hdr != "ok" {
 				x.r.Violate(rep.Violation{Kind: "oracle", Check: "C04.tamper-evident", Signature: "C04.header-accepted-only-without-hmac-sha384:" + what, Input: input,
-					Impl: "VerifyHeader(h256, nil)=ok; VerifyHeader(h256, h384)=" + implV.hdr + "; other steps: " + impl,
+					Impl:          "VerifyHeader(h256, nil)=ok; VerifyHeader(h256, h384)=" + implV.hdr + "; other steps: " + impl,
 					PropertyFails: decodable && !bytes.Equal(proj, base.proj) && strings.HasSuffix(impl, "mfg=ok cch=ok entries=ok owner=ok")})
 			}
 			if hdr256 != "ok" && implV.hdr == "ok" && ov.Hmac.Algorithm == protocol.HmacSha256Hash {
